@@ -640,6 +640,10 @@ func (it *k4interp) eval1(fr *k4frame, v ssa.Value) (k4val, error) {
 				return k4val{kind: 2, f: float64(int64(a.f) & int64(b.f))}, nil
 			case token.OR:
 				return k4val{kind: 2, f: float64(int64(a.f) | int64(b.f))}, nil
+			case token.XOR:
+				return k4val{kind: 2, f: float64(int64(a.f) ^ int64(b.f))}, nil
+			case token.AND_NOT:
+				return k4val{kind: 2, f: float64(int64(a.f) &^ int64(b.f))}, nil
 			case token.SHL:
 				return k4val{kind: 2, f: float64(int64(a.f) << uint(b.f))}, nil
 			case token.SHR:
@@ -699,6 +703,22 @@ func (it *k4interp) eval1(fr *k4frame, v ssa.Value) (k4val, error) {
 		}
 		if a.kind == 2 && isNumeric(x.Type()) && !isFloat(x.Type()) && isFloat(x.X.Type()) {
 			return k4val{kind: 2, f: math.Trunc(a.f)}, nil
+		}
+		if a.kind == 2 {
+			if bt, ok := x.Type().Underlying().(*types.Basic); ok {
+				switch bt.Kind() {
+				case types.Uint8:
+					return k4val{kind: 2, f: float64(uint8(int64(a.f)))}, nil
+				case types.Int8:
+					return k4val{kind: 2, f: float64(int8(int64(a.f)))}, nil
+				case types.Uint16:
+					return k4val{kind: 2, f: float64(uint16(int64(a.f)))}, nil
+				case types.Uint32:
+					return k4val{kind: 2, f: float64(uint32(int64(a.f)))}, nil
+				case types.Int32:
+					return k4val{kind: 2, f: float64(int32(int64(a.f)))}, nil
+				}
+			}
 		}
 		return a, nil
 	case *ssa.ChangeType:
@@ -909,7 +929,9 @@ func k4run(p *Program, f *ssa.Function, m *Model, inline func(*ssa.Function) boo
 			args = append(args, k4val{kind: 3, v: par, s: k})
 		}
 	}
-	return it.call(f, args, nil)
+	res, err := it.call(f, args, nil)
+	lastCalls = it.calls
+	return res, err
 }
 
 // enumerate all assignments of vals to the numeric keys and of {false,true} to
@@ -970,7 +992,7 @@ func missingList(m *Model) string {
 // nativeMath evaluates pure math functions on numeric arguments.
 func (it *k4interp) nativeMath(fr *k4frame, x *ssa.Call, name string) (k4val, bool, error) {
 	switch name {
-	case "math.Sqrt", "math.Abs", "math.IsNaN", "math.Max", "math.Min", "math.IsInf", "math.Floor", "math.Ceil", "math.Round":
+	case "math.Sqrt", "math.Abs", "math.IsNaN", "math.Max", "math.Min", "math.IsInf", "math.Floor", "math.Ceil", "math.Round", "math.Pow10":
 	default:
 		return k4val{}, false, nil
 	}
@@ -986,6 +1008,8 @@ func (it *k4interp) nativeMath(fr *k4frame, x *ssa.Call, name string) (k4val, bo
 		fs = append(fs, v.f)
 	}
 	switch name {
+	case "math.Pow10":
+		return k4val{kind: 2, f: math.Pow10(int(fs[0]))}, true, nil
 	case "math.Sqrt":
 		return k4val{kind: 2, f: math.Sqrt(fs[0])}, true, nil
 	case "math.Abs":
